@@ -271,6 +271,91 @@ func tags(res *vkit.Result) {
 	}
 }
 
+// ---------- (3b) the ammo's tag on every pass, for every file format ----------
+
+// tagsFormats: five tagged entries per file, read three times, with and without preloading: every
+// tag must be reported exactly three times (a tag lost or replaced on a later pass shows here).
+func tagsFormats(res *vkit.Result) {
+	tgt, err := vkit.NewHTTPTarget(false)
+	if err != nil {
+		res.Inconclusive(true, "target: %v", err)
+		return
+	}
+	defer tgt.Close()
+	const entries, passes = 5, 3
+	files := map[string]func() (string, string){
+		"uri": func() (string, string) {
+			var b strings.Builder
+			for i := 0; i < entries; i++ {
+				fmt.Fprintf(&b, "/u%d tag%d\n", i, i)
+			}
+			return "uri", b.String()
+		},
+		"uripost": func() (string, string) {
+			var b strings.Builder
+			for i := 0; i < entries; i++ {
+				fmt.Fprintf(&b, "5 /p%d tag%d\nhello\n", i, i)
+			}
+			return "uripost", b.String()
+		},
+		"raw": func() (string, string) {
+			var b strings.Builder
+			for i := 0; i < entries; i++ {
+				req := fmt.Sprintf("GET /r%d HTTP/1.1\r\nHost: h.example\r\n\r\n", i)
+				fmt.Fprintf(&b, "%d tag%d\n%s\n", len(req), i, req)
+			}
+			return "raw", b.String()
+		},
+		"jsonline-lines": func() (string, string) {
+			var b strings.Builder
+			for i := 0; i < entries; i++ {
+				fmt.Fprintf(&b, `{"host":"h.example","method":"GET","uri":"/j%d","tag":"tag%d"}`+"\n", i, i)
+			}
+			return "http/json", b.String()
+		},
+		"jsonline-array": func() (string, string) {
+			var xs []string
+			for i := 0; i < entries; i++ {
+				xs = append(xs, fmt.Sprintf(`{"host":"h.example","method":"GET","uri":"/a%d","tag":"tag%d"}`, i, i))
+			}
+			return "http/json", "[" + strings.Join(xs, ",\n") + "]\n"
+		},
+	}
+	for _, name := range []string{"uri", "uripost", "raw", "jsonline-lines", "jsonline-array"} {
+		for _, preload := range []bool{false, true} {
+			for _, instances := range []int{1, 3} {
+				typ, text := files[name]()
+				path := vkit.WriteMem([]byte(text))
+				ammo := map[string]any{"type": typ, "file": path, "passes": passes}
+				if preload {
+					ammo["preload"] = true
+				}
+				c := map[string]any{"format": name, "preload": preload, "passes": passes, "instances": instances}
+				key := "C10/tags-by-format/" + name
+				samples, rr, err := runPool(pool(ammo, map[string]any{"type": "http", "target": tgt.Addr}, instances), 60*time.Second)
+				vkit.RemoveMem(path)
+				if err != nil || rr.Err != nil || rr.Hang {
+					res.Violate(key+"/run", fmt.Sprintf("pool failed: %v %v", err, rr.Err), c)
+					continue
+				}
+				got := map[string]int{}
+				for _, s := range samples {
+					got[s.Tags]++
+				}
+				want := map[string]int{}
+				for i := 0; i < entries; i++ {
+					want[fmt.Sprintf("tag%d", i)] = passes
+				}
+				if fmt.Sprint(got) != fmt.Sprint(want) {
+					res.Violate(key+"/tag", fmt.Sprintf("%d tagged entries read %d times: samples per tag %v, want %v", entries, passes, got, want), c)
+				}
+				res.Count("tag_samples", int64(len(samples)))
+				res.Eval(vkit.JSON(c), true)
+			}
+		}
+	}
+}
+
 // ---------- (4) gRPC codes ----------
 
 var grpcTable = map[codes.Code]int{codes.OK: 200, codes.Canceled: 499, codes.InvalidArgument: 400, codes.DeadlineExceeded: 504, codes.NotFound: 404,
@@ -642,6 +727,7 @@ func main() {
 	}
 	failureKinds(res)
 	tags(res)
+	tagsFormats(res)
 	grpcCodes(res)
 	httpScenario(res)
 	recycledSamples(res, 4, 150, 400)
